@@ -94,7 +94,11 @@ def variants(kind):
             "columns": [lambda q, Q: q.columns(t.id, t.a)],
             "insert": [lambda q, Q: q.insert((1, 2), (3, 4))],
             "on_conflict": [lambda q, Q: q.on_conflict(t.id), lambda q, Q: q.on_conflict()],
-            "do_update": [lambda q, Q: q.do_update("a"), lambda q, Q: q.do_update("a", sq(Q))],
+            "do_update": [lambda q, Q: q.do_update("a"), lambda q, Q: q.do_update("a", sq(Q)), lambda q, Q: q.do_update(t.a, t.a + 1).do_update("id")],
+            # the feeding SELECT has several sources, so *its* columns are qualified (the upsert clauses must not be)
+            "select": [lambda q, Q: q.from_(u).join(R()["Table"]("v")).on(u.id == R()["Table"]("v").id).select(u.id, u.a),
+                       lambda q, Q: q.from_(u).from_(R()["Table"]("v")).select(u.id, R()["Table"]("v").a),
+                       lambda q, Q: q.from_(Q.from_(u).select(u.id, u.a).as_("s")).select("id", "a")],
             "returning": [lambda q, Q: _returning(q, t.a), lambda q, Q: _returning(q, "*"), lambda q, Q: _returning(q, "id", "a")],
         }
     if kind == "setop":
@@ -479,6 +483,43 @@ def wellformed(kind, d, calls, sql, mon):
     if why:
         mon.violation("%s:clause-order:%s:%s" % (kind, why.split(" (")[0].replace(" ", "-"), fam), "%s: %r (calls %s)" % (why, sql[:260], calls))
         return True
+    if kind == "insert":
+        # the conflict target is a list of bare column names
+        for i, tk in enumerate(toks):
+            if tk.kind == "WORD" and tk.value == "CONFLICT" and i + 1 < len(toks) and toks[i + 1].text == "(":
+                j = i + 2
+                inside = []
+                while j < len(toks) and toks[j].text != ")":
+                    inside.append(toks[j])
+                    j += 1
+                mon.count("conflict_targets_checked")
+                if not all((x.kind == "IDENT") if k_ % 2 == 0 else (x.text == ",") for k_, x in enumerate(inside)):
+                    mon.violation("insert:conflict-target-not-bare-columns:%s" % fam, "ON CONFLICT (...) is not a list of bare column names: %r (calls %s)" % (sql[:300], calls))
+                    return True
+        # the assignment targets of DO UPDATE SET / ON DUPLICATE KEY UPDATE are bare column names
+        for i, tk in enumerate(toks):
+            if tk.kind == "WORD" and tk.value == "UPDATE" and i > 0 and toks[i - 1].kind == "WORD" and toks[i - 1].value in ("DO", "KEY"):
+                j = i + 1
+                if j < len(toks) and toks[j].kind == "WORD" and toks[j].value == "SET":
+                    j += 1
+                depth = 0
+                start = True
+                while j < len(toks) and not (depth == 0 and toks[j].kind == "WORD" and toks[j].value in ("WHERE", "RETURNING")):
+                    tj = toks[j]
+                    if tj.kind == "PUNCT" and tj.text in "([":
+                        depth += 1
+                    elif tj.kind == "PUNCT" and tj.text in ")]":
+                        depth -= 1
+                    if start and depth == 0:
+                        mon.count("upsert_targets_checked")
+                        if not (tj.kind == "IDENT" and j + 1 < len(toks) and toks[j + 1].text == "="):
+                            mon.violation("insert:upsert-target-not-a-bare-column:%s" % fam, "the assignment target after %s is not a bare column name: %r (calls %s)" % (
+                                "DO UPDATE SET" if toks[i - 1].value == "DO" else "ON DUPLICATE KEY UPDATE", sql[:300], calls))
+                            return True
+                        start = False
+                    elif depth == 0 and tj.kind == "PUNCT" and tj.text == ",":
+                        start = True
+                    j += 1
     if d == "SQLLiteQuery" and (kind != "select" or set(calls) <= SQLITE_OK) and "period_for" not in calls and "temporary" not in calls[:0]:
         try:
             sqlite_prepare(sql)
